@@ -894,6 +894,8 @@ def initial_variants(n: int, rnd, how: str) -> list[int]:
     if how == "extra":
         ex = rnd.sample(others, rnd.randint(1, max(1, len(others) - 2)))
         return list(mn) + ex
+    if how == "extra2":                   # exactly two extra known coalitions: environments with EQUALLY MANY explorable coalitions, different ones
+        return list(mn) + rnd.sample(others, min(2, len(others)))
     if how == "dup":
         ex = rnd.sample(others, rnd.randint(0, max(0, len(others) - 2)))
         l = list(mn) + ex + [rnd.choice(list(mn) + ex) for _ in range(3)]
@@ -1089,7 +1091,8 @@ def run(tier: str, budget: Budget, rnd, arg: str) -> StreamResult:
         i = 0
         while gen_budget.ok() and i < ((420 if arg == "C09" else 150) if quick else 2500):
             n = 4 if i % 3 != 2 else 5
-            c = new_case(n, ["minimal", "minimal", "extra", "dup", "no_empty_grand"][i % 5], fam_filter=asym)
+            c = new_case(n, (["minimal", "extra2", "extra", "extra2", "no_empty_grand"] if arg == "C13" else
+                             ["minimal", "minimal", "extra", "dup", "no_empty_grand"])[i % 5], fam_filter=asym)
             i += 1
             if c is None or not c.alive:
                 continue
